@@ -33,10 +33,37 @@ def findings_table():
         rows.append(f"| {k['property']} | {k['status']} | {k.get('commit','')} | {txt} |")
     return "\n".join(rows)
 
+def overview_table():
+    man = json.load(open(f"{V}/MANIFEST.json"))
+    kf = json.load(open(f"{V}/known_findings.json"))
+    props = {json.loads(l)["id"]: json.loads(l)["title"] for l in open(f"{V}/properties.jsonl") if l.strip()}
+    rows = ["| id | property | level | theorems in Props | `_partial` theorems | fixed defects | known findings | seeds caught |",
+            "|---|---|---|---|---|---|---|---|"]
+    seeds = {}
+    for d in glob.glob(f"{V}/seeded/*/meta.json"):
+        m = json.load(open(d))
+        det = m.get("detection")
+        ok = bool(m.get("detected_by")) if det is None else det["detected"]
+        neutral = bool(m.get("neutralised_by_fix")) and not ok
+        a = seeds.setdefault(m["property"], [0, 0, 0])
+        a[0] += 1; a[1] += int(ok); a[2] += int(neutral)
+    for c in man["checks"]:
+        pid = c["property_id"]
+        src = open(f"{V}/lean/AkVerif/Props/{pid}.lean").read()
+        ths = re.findall(r"^theorem\s+(\S+)", src, re.M)
+        part = [t for t in ths if "partial" in t]
+        nf = sum(1 for k in kf if k["property"] == pid and k["status"] == "fixed")
+        nk = sum(1 for k in kf if k["property"] == pid and k["status"] == "known")
+        sd = seeds.get(pid, [0, 0, 0])
+        sdt = f"{sd[1]}/{sd[0]}" + (f" (+{sd[2]} harmless after a fix)" if sd[2] else "")
+        rows.append(f"| {pid} | {props[pid][:70]} | {c['level_claimed']['category']} | {len(ths)} | {', '.join(part) or '—'} | {nf} | {nk} | {sdt} |")
+    rows.append(f"| | | | | | **{sum(1 for k in kf if k['status']=='fixed')}** | **{sum(1 for k in kf if k['status']=='known')}** | |")
+    return "\n".join(rows)
+
 def main():
     p = f"{V}/DESIGN.md"
     s = open(p).read()
-    for name, fn in (("SEEDS", seeds_table), ("FINDINGS", findings_table)):
+    for name, fn in (("SEEDS", seeds_table), ("FINDINGS", findings_table), ("OVERVIEW", overview_table)):
         a, b = f"<!-- {name}-BEGIN -->", f"<!-- {name}-END -->"
         if a in s and b in s:
             s = s[:s.index(a) + len(a)] + "\n" + fn() + "\n" + s[s.index(b):]
